@@ -40,6 +40,11 @@ func expectation(p ssh.VerifC30Params) want {
 		if p.Pos <= 2 {
 			return wantFail
 		}
+		// after the initial key exchange IGNORE and DEBUG are skipped in strict mode too -
+		// also in the middle of a re-key, whose NEWKEYS must still restart the counters
+		if p.Action == ssh.VerifC30InjectIgnore || p.Action == ssh.VerifC30InjectDebug {
+			return wantTransparent
+		}
 		return wantNothing
 	}
 	if p.Action == ssh.VerifC30InjectIgnore || p.Action == ssh.VerifC30InjectDebug {
